@@ -42,15 +42,23 @@ def r_star_table(ctx: Ctx, rule: str) -> None:
             sc = ctx.an.scope(f)
             calls = [n for n in ctx.distinct_sites(ctx.nodes(f, lambda n: ctx.is_call_to(n, "_map")))]
             rep.floor(rule, f"_map call in {m}", len(calls), 1)
+            V = ctx.vals
+
+            def origin(n, e):
+                """where the argument comes from, seen from the public method (through helpers spliced into it)"""
+                return V.trace(n.func, n.env, e) if e is not None else (n.func, n.env, None)
+
             for c in calls:
-                a = ctx.call_arg(c.ast, c.callee.targets[0], "arg_stars")
+                a = origin(c, ctx.call_arg(c.ast, c.callee.targets[0], "arg_stars"))[2]
+                a = V.const(f, a) if a is not None and not isinstance(a, ast.Constant) else a
                 rep.ob(rule, f"{m} passes arg_stars={k}", isinstance(a, ast.Constant) and a.value == k and not isinstance(a.value, bool), node=c,
                        detail=f"arg_stars <- {ast.unparse(a) if a is not None else None}")
-                it = ctx.call_arg(c.ast, c.callee.targets[0], "arg_iter")
-                rep.ob(rule, f"{m} hands its iterable parameter to _map", expr_role(ctx, f, it) == "ITER", node=c)
+                fr, _, it = origin(c, ctx.call_arg(c.ast, c.callee.targets[0], "arg_iter"))
+                rep.ob(rule, f"{m} hands its iterable parameter to _map", fr is f and expr_role(ctx, fr, it) == "ITER", node=c)
             gens = ctx.distinct_sites(ctx.nodes(f, lambda n: ctx.is_call_to(n, "_generate_group_name")))
             for gcall in gens:
-                a = ctx.call_arg(gcall.ast, gcall.callee.targets[0], "prefix")
+                a = origin(gcall, ctx.call_arg(gcall.ast, gcall.callee.targets[0], "prefix"))[2]
+                a = V.const(f, a) if a is not None and not isinstance(a, ast.Constant) else a
                 rep.ob(rule, f"generated group names of {m} start with '{m}'", isinstance(a, ast.Constant) and a.value == m, node=gcall)
     sf = ctx.prog.func("internals.helpers.star_function")
     params = sf.param_names()
@@ -99,45 +107,64 @@ def r_lazy_iter(ctx: Ctx, rule: str) -> None:
     rep = ctx.rep
     rep.rule(rule, "laziness/order: the iterable parameter flows from the public method to exactly one `for` header in _arg_consumer "
                    "(optionally through enumerate/iter) and into nothing else (no list()/tuple()/sorted()/next()/len())")
-    uses = 0
+    from ..cfg import bind_args
+
+    uses = [0]
+    done = set()
+
+    def check(f, iters) -> None:
+        key = (f.qual, tuple(sorted(iters)))
+        if key in done or not iters:
+            return
+        done.add(key)
+        sc = ctx.an.scope(f)
+        parents = {}
+        for node in sc._own_nodes():
+            for ch in ast.iter_child_nodes(node):
+                parents[id(ch)] = node
+        for node in sc._own_nodes():
+            if isinstance(node, ast.Name) and node.id in iters and isinstance(node.ctx, ast.Load):
+                uses[0] += 1
+                par = parents.get(id(node))
+                ok = False
+                what = type(par).__name__
+                call = par if isinstance(par, ast.Call) else (parents.get(id(par)) if isinstance(par, ast.keyword) else None)
+                if isinstance(call, ast.Call) and id(call) in ctx.an.spliced_at and (isinstance(par, ast.keyword) or node in call.args):
+                    # handed to a helper that is spliced into this method: judged by what the helper does with it
+                    t = ctx.an.spliced_at[id(call)]
+                    bound = {pn for pn, (_, arg, _e) in bind_args(call, t, f, None).items() if arg is node}
+                    if bound:
+                        check(t, bound)
+                        ok = True
+                        what = t.qual
+                elif isinstance(par, ast.Call):
+                    cal = sc.callee(par)
+                    what = cal.name
+                    if cal.kind == "pkg" and all(t.name in ("_map", "_arg_consumer") for t in cal.targets):
+                        ok = True
+                    elif cal.kind == "ext" and cal.name in ("builtins.enumerate", "builtins.iter"):
+                        gp = parents.get(id(par))
+                        ok = isinstance(gp, (ast.For,)) and gp.iter is par
+                elif isinstance(par, ast.keyword):
+                    if isinstance(call, ast.Call):
+                        cal = sc.callee(call)
+                        what = cal.name
+                        ok = cal.kind == "pkg" and all(t.name in ("_map", "_arg_consumer") for t in cal.targets)
+                elif isinstance(par, ast.For) and par.iter is node:
+                    ok = True
+                if isinstance(par, ast.Assign):
+                    # rebinding the iterable (e.g. arg_iter = list(arg_iter)) is judged at the use inside the value
+                    ok = False
+                rep.ob(rule, "the iterable is only forwarded to the consumer or iterated by its single loop", ok, func=f, construct=par if par is not None else node,
+                       detail=f"used by {what}")
+        # no rebinding of the iterable parameter
+        for p in iters:
+            rep.ob(rule, "the iterable parameter is never rebound (e.g. materialised)", p not in sc.defs, func=f, construct=f"{f.name}: {p}")
+
     for name in ("map", "starmap", "doublestarmap", "_map", "_arg_consumer"):
         for f in ctx.pool_funcs(name):
-            sc = ctx.an.scope(f)
-            iters = [p for p in f.param_names() if S.ROLE_BY_NAME.get(p) == "ITER"]
-            parents = {}
-            for node in sc._own_nodes():
-                for ch in ast.iter_child_nodes(node):
-                    parents[id(ch)] = node
-            for node in sc._own_nodes():
-                if isinstance(node, ast.Name) and node.id in iters and isinstance(node.ctx, ast.Load):
-                    uses += 1
-                    par = parents.get(id(node))
-                    ok = False
-                    what = type(par).__name__
-                    if isinstance(par, ast.Call):
-                        cal = sc.callee(par)
-                        what = cal.name
-                        if cal.kind == "pkg" and all(t.name in ("_map", "_arg_consumer") for t in cal.targets):
-                            ok = True
-                        elif cal.kind == "ext" and cal.name in ("builtins.enumerate", "builtins.iter"):
-                            gp = parents.get(id(par))
-                            ok = isinstance(gp, (ast.For,)) and gp.iter is par
-                    elif isinstance(par, ast.keyword):
-                        call = parents.get(id(par))
-                        if isinstance(call, ast.Call):
-                            cal = sc.callee(call)
-                            what = cal.name
-                            ok = cal.kind == "pkg" and all(t.name in ("_map", "_arg_consumer") for t in cal.targets)
-                    elif isinstance(par, ast.For) and par.iter is node:
-                        ok = True
-                    if isinstance(par, ast.Assign):
-                        # rebinding the iterable (e.g. arg_iter = list(arg_iter)) is judged at the use inside the value
-                        ok = False
-                    rep.ob(rule, "the iterable is only forwarded to the consumer or iterated by its single loop", ok, func=f, construct=par if par is not None else node,
-                           detail=f"used by {what}")
-            # no rebinding of the iterable parameter
-            for p in iters:
-                rep.ob(rule, "the iterable parameter is never rebound (e.g. materialised)", p not in sc.defs, func=f, construct=f"{f.name}: {p}")
+            check(f, {p for p in f.param_names() if S.ROLE_BY_NAME.get(p) == "ITER"})
+    uses = uses[0]
     rep.floor(rule, "uses of the iterable parameter", uses, 5)
     for f in ctx.pool_funcs("_arg_consumer"):
         heads = ctx.distinct_sites(ctx.nodes(f, lambda n: n.op == "iter" and n.user))
